@@ -114,7 +114,7 @@ Spec == Init /\ [][Next]_vars
 
 \* ============================================================================================ the property
 Dispatched == 1..(nextIn - 1)
-Quiescent == /\ (ioStop \/ nextIn > N \/ Dev_ExtractOnlyFirst) /\ queue = <<>> /\ (ioStop => ioClosed \/ Dev_BadFramingWaits)
+Quiescent == /\ (ioStop \/ nextIn > N \/ (Dev_ExtractOnlyFirst /\ nextIn > 1)) /\ queue = <<>> /\ (ioStop => ioClosed \/ Dev_BadFramingWaits)
              /\ \A i \in Dispatched : i \in sent /\ (Closing(pipe[i]) => i \in closedBy)
 FirstClosing == IF \E i \in 1..N : Closing(pipe[i]) THEN CHOOSE i \in 1..N : Closing(pipe[i]) /\ \A j \in 1..(i - 1) : ~Closing(pipe[j])
                 ELSE N + 1
